@@ -11,7 +11,7 @@ package signature
 
 //@ func VerifyHeader
 //@   property C08
-//@   modifies *, hashInput, hdrVerified[hdr], hdrSubstituted[hdr]
+//@   modifies *, hashInput, hdrVerified[hdr], hdrSubstituted[hdr], hdrSealed[hdr]
 //@   ghostset hdrVerified[hdr] := err == nil
 //@   ensures [marks-verified] err == nil ==> hdrVerified[hdr]
 //@   ensures [needs-both-records] signatureFormat != "" && err == nil ==> old(hdr.PAXRecords) != nil && old(has(hdr.PAXRecords, "STFS.EmbeddedHeader")) && old(has(hdr.PAXRecords, "STFS.Signature"))
